@@ -2031,6 +2031,6 @@ theorem danglingRange_none :
     startsWith_lit _ _ _ str_stars10, startsWith_lit _ _ _ str_stars15,
     List.isPrefixOf, ctxRangeText, parseContextRange, consumeLineNumber, isDigit, stringToLineNumber, i64Max, consumeStr,
     ctxParseNewRange, ctxAppendLine, ctxAppendContent, ctxCheckNoNewline, PStream.peek, BACKSLASH, SP, MINUS, PLUS, BANG,
-    isToFileLine, PStream.seek, hunkFromContextParts, hunkFromContextParts.go, Except.map]
+    isToFileLine, PStream.seek, hunkFromContextParts, hunkFromContextParts.go, Except.map, CR]
 
 end PatchModel.Context
